@@ -36,7 +36,7 @@ def check(ctx):
     # ---------------- contracted (dummy) indices of blockwise: one zero per block for inputs with a single
     # block along the index when the blocks are handed over as a list (concatenate falsy), a single zero when
     # they are concatenated
-    from ..lib import find, unparse
+    from ..lib import find, unparse, eqv
     gcm = ctx.model.module("dask/blockwise.py").func("_get_coord_mapping")
     ok = bool(find("reps = 1 if concatenate else dims[ind]", gcm)) and bool(find("_dummies_list.append([list(range(dims[ind])), [0] * reps])", gcm))
     ctx.ob("ALG.blockwise.broadcast-dummies", gcm, "dummy index of size n: coordinates [0..n-1] plus [0] * (1 if concatenate else n) for inputs that have one block along it", ok, "" if ok else "an input with a single block along a contracted index is passed once instead of once per block: with concatenate=False the lists handed to the function are no longer aligned by block index")
